@@ -78,6 +78,35 @@ impl Server {
     }
 }
 
+/// Verification hook: an endpoint factory, so that a simulator can substitute the UDP socket and
+/// timer source of the endpoint that `Server::try_from(UserArgs)` creates. Compiled only with
+/// `--cfg selium_verif`.
+#[cfg(selium_verif)]
+pub mod verif {
+    use quinn::{Endpoint, ServerConfig};
+    use std::cell::RefCell;
+    use std::io;
+    use std::net::SocketAddr;
+
+    pub type ServerEndpointFactory = Box<dyn Fn(ServerConfig, SocketAddr) -> io::Result<Endpoint>>;
+
+    thread_local! {
+        static FACTORY: RefCell<Option<ServerEndpointFactory>> = RefCell::new(None);
+    }
+
+    /// Installs (or removes) the server endpoint factory for the current thread.
+    pub fn set_server_endpoint_factory(factory: Option<ServerEndpointFactory>) {
+        FACTORY.with(|f| *f.borrow_mut() = factory);
+    }
+
+    pub(crate) fn server_endpoint(config: ServerConfig, addr: SocketAddr) -> io::Result<Endpoint> {
+        FACTORY.with(|f| match &*f.borrow() {
+            Some(factory) => factory(config, addr),
+            None => Endpoint::server(config, addr),
+        })
+    }
+}
+
 #[cfg(selium_verif)]
 impl Server {
     /// Verification hook: builds a server around an endpoint supplied by a simulator.
@@ -109,7 +138,10 @@ impl TryFrom<UserArgs> for Server {
         };
 
         let config = server_config(root_store, certs, key, opts)?;
+        #[cfg(not(selium_verif))]
         let endpoint = Endpoint::server(config, args.bind_addr)?;
+        #[cfg(selium_verif)]
+        let endpoint = verif::server_endpoint(config, args.bind_addr)?;
 
         // Create hash to store message ordering data
         let topics = Arc::new(Mutex::new(HashMap::new()));
